@@ -5,6 +5,7 @@ mod c01;
 mod c15;
 mod c16;
 mod c17;
+mod c17_core;
 mod refber;
 
 use std::cell::RefCell;
@@ -13,6 +14,12 @@ use std::panic::{self, AssertUnwindSafe};
 use std::sync::atomic::{AtomicU64, AtomicUsize, Ordering};
 use std::sync::{Arc, Mutex};
 use std::time::{Duration, Instant};
+
+pub use gufo_snmp::buf::Buffer as BufferUnderTest;
+
+pub fn last_panic() -> String {
+    LAST_PANIC.with(|p| p.borrow().clone())
+}
 
 thread_local! {
     static LAST_PANIC: RefCell<String> = const { RefCell::new(String::new()) };
